@@ -1,94 +1,19 @@
 ------------------------------ MODULE RoundFSM ------------------------------
 (***************************************************************************)
-(* One round.Round object (chaincore/round/entity.go), C37 (and the        *)
-(* notarized-block list of C35, see the NB section at the end).            *)
-(*                                                                         *)
-(* Part 1  the SEQUENTIAL specification: every exported operation as one   *)
-(*         atomic big step on the abstract state                           *)
-(*           phase, toc (timeout count), fin (finalizing state),           *)
-(*           shares (miner -> share tag), votes (miner -> timeout vote),   *)
-(*           locked (r.mutex left held by a returned call).                *)
-(*         It is a RELATION (SeqNext returns a set) because the property   *)
-(*         is silent about some choices (which vote wins) and because the  *)
-(*         deviations of the code from the intended design are NAMED       *)
-(*         choices: LeakChoices, CapDecrChoices.                           *)
-(* Part 2  the STEP machine: every operation as its sequence of lock /     *)
-(*         atomic-load / atomic-store / field steps as in the source, run  *)
-(*         by 2-3 processes, exhaustively interleaved by TLC.              *)
-(* Part 3  the properties of C37.                                          *)
+(* One round.Round object (chaincore/round/entity.go), C37, STEP machine:  *)
+(* every exported operation as its sequence of lock / atomic-load /        *)
+(* atomic-store / field steps as in the source, run by 2-3 processes and   *)
+(* exhaustively interleaved by TLC.  The sequential (big-step) semantics   *)
+(* of the same operations is RoundSeq.tla; the deviations of the code from *)
+(* the intended design are NAMED choices (LeakChoices, CapDecrChoices,     *)
+(* AtomicSetPhase).  The notarized-block list of C35 is at the end.        *)
 (***************************************************************************)
-EXTENDS Integers, Sequences, FiniteSets, TLC
+EXTENDS RoundSeq
 
 CONSTANTS Miner,            \* miner names (strings)
-          SelfMiner,        \* node.Self: its own timeout vote is skipped by IncrementTimeoutCount
           Thr,              \* threshold passed to AddVRFShare
           Cap,              \* server_chain.round_timeouts.timeout_cap, 0 = no cap
-          LeakChoices,      \* {TRUE}: as written, a rejected Restart returns with r.mutex held
-                            \* {FALSE}: intended;  {TRUE,FALSE}: either (trace validation)
-          CapDecrChoices,   \* {TRUE}: as written, checkCap may LOWER a count set above the cap
           AtomicSetPhase    \* FALSE: as written, setPhase = atomic load, then atomic store
-
-ShareVRF == 0
-Verify == 1
-Notarize == 2
-Share == 3
-Complete == 4
-NotFinalized == 0
-Finalizing == 1
-Finalized == 2
-
-Max(a, b) == IF a > b THEN a ELSE b
-EmptyF == <<>>
-PutF(f, k, v) == IF k \in DOMAIN f THEN [f EXCEPT ![k] = v] ELSE f @@ (k :> v)
-Str(n) == ToString(n)
-
------------------------------------------------------------------------------
-(* Part 1: sequential specification                                         *)
-
-\* operations that take r.mutex (Lock or RLock)
-UsesMutex(t) == t \in {"Restart", "AddShare", "AddNB", "SetFinalizing", "SetFinalized", "Finalize",
-                       "ResetIfNot", "ResetFin", "IsFinalized", "GetShares"}
-
-InitAbs == [phase |-> ShareVRF, toc |-> 0, fin |-> NotFinalized, shares |-> EmptyF, votes |-> EmptyF, locked |-> FALSE]
-
-CapOf(n) == IF Cap > 0 /\ n > Cap THEN Cap ELSE n
-
-\* IncrementTimeoutCount (entity.go:113-158): the first miner in the seed-ranked order (other than
-\* Self) whose vote exceeds the count wins; the order is a detail the property is silent about.
-IncTocResults(s) ==
-  LET cands == {s.votes[m] : m \in {x \in DOMAIN s.votes : x # SelfMiner /\ s.votes[x] > s.toc}}
-      bases == IF cands = {} THEN {s.toc + 1} ELSE cands
-  IN  UNION { {IF d THEN CapOf(b) ELSE Max(s.toc, CapOf(b)) : d \in CapDecrChoices} : b \in bases }
-
-Out(s, r) == [s |-> s, r |-> r]
-
-SeqNext(op, s) ==
-  IF UsesMutex(op.t) /\ s.locked THEN {Out(s, "hang")}
-  ELSE CASE op.t = "SetPhase"   -> {Out([s EXCEPT !.phase = Max(@, op.v)], "none")}     \* entity.go:711,724
-       []   op.t = "ResetPhase" -> {Out([s EXCEPT !.phase = op.v], "none")}               \* :716
-       []   op.t = "GetPhase"   -> {Out(s, Str(s.phase))}
-       []   op.t = "Restart"    ->                                                        \* :646-658
-              IF s.phase >= Share
-                THEN {Out([s EXCEPT !.locked = lk], "err") : lk \in LeakChoices}
-                ELSE {Out([s EXCEPT !.phase = ShareVRF, !.shares = EmptyF], "ok")}
-       []   op.t = "AddShare"   ->                                                        \* :669-688
-              IF Cardinality(DOMAIN s.shares) >= Thr \/ op.m \in DOMAIN s.shares
-                THEN {Out(s, "false")}
-                ELSE {Out([s EXCEPT !.shares = PutF(@, op.m, op.v)], "true")}
-       []   op.t = "AddNB"      -> {Out([s EXCEPT !.phase = Max(@, Share)], "none")}      \* :298-345
-       []   op.t = "SetToc"     -> IF op.v <= s.toc THEN {Out(s, "false")}                \* :169-179
-                                   ELSE {Out([s EXCEPT !.toc = op.v], "true")}
-       []   op.t = "IncToc"     -> {Out([s EXCEPT !.toc = n, !.votes = EmptyF], "none") : n \in IncTocResults(s)}
-       []   op.t = "Vote"       -> {Out([s EXCEPT !.votes = PutF(@, op.m, op.v)], "none")}
-       []   op.t = "GetToc"     -> {Out(s, Str(s.toc))}
-       []   op.t = "SetFinalizing" -> IF s.fin # NotFinalized THEN {Out(s, "false")}      \* :463-472
-                                      ELSE {Out([s EXCEPT !.fin = Finalizing], "true")}
-       []   op.t \in {"SetFinalized", "Finalize"} -> {Out([s EXCEPT !.fin = Finalized], "none")}
-       []   op.t = "ResetIfNot" -> IF s.fin = Finalized THEN {Out(s, "none")}             \* :483-490
-                                   ELSE {Out([s EXCEPT !.fin = NotFinalized], "none")}
-       []   op.t = "ResetFin"   -> {Out([s EXCEPT !.fin = NotFinalized], "none")}
-       []   op.t = "IsFinalized" -> {Out(s, IF s.fin = Finalized THEN "true" ELSE "false")}
-       []   op.t = "GetShares"  -> {Out(s, Str(Cardinality(DOMAIN s.shares)))}
 
 -----------------------------------------------------------------------------
 (* Part 2: step machine                                                     *)
@@ -210,7 +135,7 @@ SRead(p) == Instr(p) = "sread" /\ Step(p) /\ SetRes(p, Str(Cardinality(DOMAIN sh
             /\ UNCHANGED <<obj, locks, cur, reg, left, racy, leaked>>
 
 \* ---- timeout counter (entity.go:102-187)
-AbsNow == [phase |-> phase, toc |-> toc, fin |-> fin, shares |-> shares, votes |-> votes, locked |-> FALSE]
+AbsNow == [phase |-> phase, toc |-> toc, fin |-> fin, shares |-> shares, votes |-> votes, locked |-> FALSE, cap |-> Cap, thr |-> Thr]
 TSet(p)  == /\ Instr(p) = "tset" /\ Step(p)
             /\ IF cur[p].v <= toc THEN SetRes(p, "false") /\ UNCHANGED toc
                                   ELSE SetRes(p, "true") /\ toc' = cur[p].v
